@@ -389,3 +389,79 @@ Proof.
   replace (S (length s) - length s)%nat with 1%nat by lia. cbn [app split_fuel inline_pieces].
   destruct (inline_text vs s) as [t|e]; [rewrite app_nil_r|]; reflexivity.
 Qed.
+
+(* ------------------------------------------------------------------ the store as a map: SET then $name
+   Names reach Variables._set upper-cased (sqlglot normalises the unquoted identifier of SET), so no name holds a lower-case letter *)
+Definition canon (s : str) : bool := forallb (fun c => negb (is_ascii_lower c)) s.
+
+Lemma ci_eqs_refl a : ci_eqs a a = true.
+Proof. induction a as [|x a IH]; cbn; [reflexivity|]. unfold ci_eqc. rewrite Z.eqb_refl. exact IH. Qed.
+
+Lemma ci_eqs_canon a : forall b, canon a = true -> canon b = true -> ci_eqs a b = true -> str_eqb a b = true.
+Proof.
+  induction a as [|x a IH]; intros [|y b]; cbn; try discriminate; [reflexivity|].
+  intros Ha Hb H. apply andb_prop in Ha as [Hx Ha]. apply andb_prop in Hb as [Hy Hb]. apply andb_prop in H as [Hxy H].
+  rewrite (IH b Ha Hb H), andb_true_r.
+  unfold ci_eqc, lo_c, is_ascii_upper, is_ascii_lower in *.
+  destruct ((65 <=? x) && (x <=? 90)) eqn:Ux; destruct ((65 <=? y) && (y <=? 90)) eqn:Uy; lia.
+Qed.
+
+(* a reference to the name just SET yields the value just SET (in any letter case of the reference) *)
+Lemma lookup_vset_same vs n v w :
+  forallb canon (map fst vs) = true -> canon n = true -> ci_eqs n w = true -> lookup (vset vs n v) w = Some v.
+Proof.
+  unfold lookup. induction vs as [|[n' v'] vs IH]; cbn [vset map fst forallb find]; intros Hvs Hn Hw.
+  - rewrite Hw. reflexivity.
+  - apply andb_prop in Hvs as [Hn' Hvs]. destruct (str_eqb n' n) eqn:E; cbn [find fst].
+    + apply str_eqb_eq in E. subst n'. rewrite Hw. reflexivity.
+    + destruct (ci_eqs n' w) eqn:E'; [|exact (IH Hvs Hn Hw)].
+      exfalso. assert (ci_eqs n' n = true) as Hc.
+      { clear - E' Hw. revert n w E' Hw. induction n' as [|x a IHa]; intros [|y b] [|z c]; cbn; try discriminate; [reflexivity|].
+        intros H1 H2. apply andb_prop in H1 as [H1 H1']. apply andb_prop in H2 as [H2 H2'].
+        rewrite (IHa b c H1' H2'), andb_true_r. unfold ci_eqc in *. lia. }
+      rewrite (ci_eqs_canon n' n Hn' Hn Hc) in E. discriminate.
+Qed.
+
+(* SET of one name leaves every other name's value alone - no canonicity needed *)
+Lemma lookup_vset_other vs n v w : ci_eqs n w = false -> lookup (vset vs n v) w = lookup vs w.
+Proof.
+  unfold lookup. intros Hw. induction vs as [|[n' v'] vs IH]; cbn [vset find fst].
+  - rewrite Hw. reflexivity.
+  - destruct (str_eqb n' n) eqn:E; cbn [find fst].
+    + apply str_eqb_eq in E. subst n'. rewrite Hw. reflexivity.
+    + destruct (ci_eqs n' w); [reflexivity|exact IH].
+Qed.
+
+Example set_lookup_nonvacuous :
+  let vs := [(lit "A", lit "1"); (lit "B_2", lit "x")] in
+  forallb canon (map fst vs) = true /\ canon (lit "B_2") = true /\ ci_eqs (lit "B_2") (lit "b_2") = true /\
+  lookup (vset vs (lit "B_2") (lit "y")) (lit "b_2") = Some (lit "y") /\ lookup (vset vs (lit "B_2") (lit "y")) (lit "a") = Some (lit "1").
+Proof. vm_compute. repeat split. Qed.
+
+(* the same under the weaker hypothesis that is all the proof needs: no stored name differs from n in letter case only *)
+Definition only_spelling (vs : vars) (n : str) : bool := forallb (fun n' => implb (ci_eqs n' n) (str_eqb n' n)) (map fst vs).
+
+Lemma ci_eqs_trans_l a : forall b c, ci_eqs a c = true -> ci_eqs b c = true -> ci_eqs a b = true.
+Proof.
+  induction a as [|x a IHa]; intros [|y b] [|z c]; cbn; try discriminate; [reflexivity|].
+  intros H1 H2. apply andb_prop in H1 as [H1 H1']. apply andb_prop in H2 as [H2 H2'].
+  rewrite (IHa b c H1' H2'), andb_true_r. unfold ci_eqc in *. lia.
+Qed.
+
+Lemma lookup_vset_same_gen vs n v w : only_spelling vs n = true -> ci_eqs n w = true -> lookup (vset vs n v) w = Some v.
+Proof.
+  unfold lookup, only_spelling. induction vs as [|[n' v'] vs IH]; cbn [vset map fst forallb find]; intros Hvs Hw.
+  - rewrite Hw. reflexivity.
+  - apply andb_prop in Hvs as [Hn' Hvs]. destruct (str_eqb n' n) eqn:E; cbn [find fst].
+    + apply str_eqb_eq in E. subst n'. rewrite Hw. reflexivity.
+    + destruct (ci_eqs n' w) eqn:E'; [|exact (IH Hvs Hw)].
+      rewrite (ci_eqs_trans_l n' n w E' Hw) in Hn'. discriminate.
+Qed.
+
+(* the store keeps that shape: after SET n, no name differs from n in letter case only, and other names' uniqueness is kept *)
+Lemma vset_only_spelling vs n v m : only_spelling vs m = true -> implb (ci_eqs n m) (str_eqb n m) = true -> only_spelling (vset vs n v) m = true.
+Proof.
+  unfold only_spelling. induction vs as [|[n' v'] vs IH]; cbn [vset map fst forallb]; intros Hvs Hn.
+  - rewrite Hn. reflexivity.
+  - apply andb_prop in Hvs as [Hn' Hvs]. destruct (str_eqb n' n); cbn [map fst forallb]; rewrite Hn'; cbn [andb]; auto.
+Qed.
